@@ -385,6 +385,29 @@ pub fn run(p: &Params, rep: &mut Report) {
                 }
             }
         }
+        // several annotation-level predicates of the Web Annotation namespace on one annotation, in any order, mixed with body predicates
+        if let Some(r) = h.model.resources.values().next().cloned() {
+            if rng.chance(1, 2) {
+                let ns = *rng.pick(&[CONTEXT_ANNO, "http://www.w3.org/ns/anno/"]);
+                let mut props: Vec<(&str, DataValue)> = vec![
+                    ("motivation", DataValue::String("tagging".into())),
+                    ("creator", DataValue::String(rng.pick(&["https://example.org/me", "me \"quoted\""]).to_string())),
+                    ("created", DataValue::String("2024-01-02T03:04:05Z".into())),
+                    ("generator", DataValue::String(rng.pick(&["mytool", "https://example.org/tool"]).to_string())),
+                    ("generated", DataValue::String("2024-01-02T03:04:06Z".into())),
+                    ("purpose", DataValue::String("x".into())),
+                    ("value", DataValue::Int(3)),
+                ];
+                rng.shuffle(&mut props);
+                let n = rng.range(2, props.len() as i64) as usize;
+                let mut data: Vec<DataReq> = props.into_iter().take(n).map(|(k, value)| DataReq { set: Ref::Id(ns.into()), id: Ref::None, key: Ref::Id(k.into()), value }).collect();
+                if rng.chance(1, 2) {
+                    data.insert(rng.below(data.len() + 1), DataReq { set: Ref::Id("plain".into()), id: Ref::None, key: Ref::Id("k".into()), value: DataValue::Int(1) });
+                }
+                let op = Op::Annotate(AnnReq { id: Some("w3c-several".into()), target: Some(SelReq::Res(Ref::Id(r.id.clone()))), data });
+                let _ = h.step(&op);
+            }
+        }
         // values whose JSON type is easy to get wrong: IRI-like strings (exported as {"id": ..}), near-IRIs, and short lists of them
         if let Some(r) = h.model.resources.values().next().cloned() {
             let s = |x: &str| DataValue::String(x.into());
